@@ -27,6 +27,9 @@ import Sds.Proofs.Codec
 import Sds.Proofs.GenEqVec
 import Sds.Proofs.GenEqVec2
 import Sds.Proofs.GenEqConstr2
+import Sds.Proofs.GenEqConstr4
+import Sds.Proofs.GenEqConstr5
+import Sds.Proofs.GenEqConstr3
 
 namespace Sds.C05
 open Sds Outcome
@@ -295,5 +298,31 @@ theorem int_vector_pack_as_translated_from_source (m : Mode) (v : IntVec) (hwf :
     (hb : v.len * v.width + 63 < U64) :
     Generated.gen_IntVector_pack m v = ok v.pack :=
   GenEq.int_pack_eq m v hwf hb
+
+/-! **`RawVector::with_capacity` and `IntVector::with_capacity` as translated from the source on this run**
+(`Generated/FnsConstr4.lean`): the width check (`Err` for 0 and above 64), `capacity * width`, `bits_to_words` — equal to
+the model constructors (which ignore the capacity) whenever the requested capacity in bits fits a `usize` with room for
+rounding; beyond that the code panics where the model does not (`GenEq.int_with_capacity_ne`: a request of 2^58 words). -/
+theorem with_capacity_as_translated_from_source (m : Mode) (cap width : Nat) :
+    (cap + 63 < U64 → Generated.gen_RawVector_with_capacity m cap = ok RawVec.empty) ∧
+    ((1 ≤ width → width ≤ 64 → cap * width + 63 < U64) →
+        Generated.gen_IntVector_with_capacity m cap width = IntVec.withCapacity cap width) :=
+  ⟨GenEq.raw_with_capacity_eq m cap, GenEq.int_with_capacity_eq' m cap width⟩
+
+/-! **`RawVector::complement` as translated from the source on this run** (`Generated/FnsConstr3.lean`): the clone, the
+`iter_mut()` loop `*word = !*word` and `set_unused_bits(false)` — equal to the model's `complement` on every size-exact
+vector. -/
+theorem raw_complement_as_translated_from_source (m : Mode) (v : RawVec) (hs : v.data.size = (v.len + 63) / 64) :
+    Generated.gen_RawVector_complement m v = ok v.complement :=
+  GenEq.raw_complement_eq m v hs
+
+/-! **`RawVector::{new, with_len}` and `BitVector::from(RawVector)` as translated from the source on this run**
+(`Generated/FnsConstr3.lean`): `vec![filler_value(value); bits_to_words(len)]` then `set_unused_bits(false)`; the set-bit
+count taken by `count_ones` over the words. -/
+theorem raw_constructors_as_translated_from_source (m : Mode) :
+    Generated.gen_RawVector_new m = ok RawVec.empty ∧
+    (∀ len value, len + 63 < U64 → Generated.gen_RawVector_with_len m len value = ok (RawVec.withLen len value)) ∧
+    (∀ v : RawVec, 64 * v.data.size < U64 → Generated.gen_BitVector_from_raw m v = ok (BitVector.ofRaw v)) :=
+  ⟨GenEq.raw_new_eq m, fun len value h => GenEq.raw_with_len_eq m len value h, fun v h => GenEq.bv_from_raw_eq m v h⟩
 
 end Sds.C05
